@@ -211,8 +211,13 @@ def main():
     with BuildLock():
         okd, logd = build_driver() if ext_ok else (False, 'extraction not built')
     proof_problems = []
-    if not okt and pid in ('C13', 'C15', 'C20', 'C17', 'C12'):
-        proof_problems.append('translator failed: ' + logt[-1200:])
+    if not okt:
+        # each generated table serves its own properties; a table that could not be regenerated is stale
+        m = re.search(r'translate\.py: FAILED (.*)', logt)
+        bad_tables = m.group(1).split() if m else ['AbiTables', 'PanicSites', 'Consts', 'LockSites']
+        serves = {'AbiTables': ('C15', 'C18'), 'PanicSites': ('C13',), 'Consts': ('C20', 'C17'), 'LockSites': ('C12',)}
+        if any(pid in serves[t] for t in bad_tables):
+            proof_problems.append('translator failed: ' + logt[-1200:])
     hyg = hygiene()
     if hyg:
         proof_problems.append('forbidden constructs: ' + '; '.join(hyg[:10]))
